@@ -56,6 +56,16 @@ pub fn wrap(w: &str, t: Ty, target_is_enum: bool) -> Ty {
         "btreemap_tuple" => Ty::BTreeMap(bx(s()), bx(Ty::Tuple(vec![n(), t]))),
         "map_map" => Ty::HashMap(bx(s()), bx(Ty::BTreeMap(bx(n()), bx(t)))),
         "tuple3_mid" => Ty::Tuple(vec![n(), t, s()]),
+        // later additions (not in WRAPS, whose indices stay what they were): the reference sits
+        // below nine / twelve constructors
+        "deep9" => {
+            // Vec<Option<HashMap<String, Vec<Option<(i32, Vec<Option<BTreeMap<String, Vec<T>>>>)>>>>>
+            let l1 = Ty::BTreeMap(bx(s()), bx(Ty::Vec(bx(t))));
+            let l2 = Ty::Tuple(vec![n(), Ty::Vec(bx(Ty::Option(bx(l1))))]);
+            let l3 = Ty::HashMap(bx(s()), bx(Ty::Vec(bx(Ty::Option(bx(l2))))));
+            Ty::Vec(bx(Ty::Option(bx(l3))))
+        }
+        "deep12" => wrap("deep9", Ty::Option(bx(Ty::Vec(bx(Ty::Tuple(vec![s(), t]))))), target_is_enum),
         other => crate::run::infra_exit(&format!("unknown wrap {}", other)),
     }
 }
@@ -73,13 +83,16 @@ pub struct Node {
     pub unit: bool,
     /// declared inside an inline module of its file (`pub mod m { .. }` + `pub use m::*;`)
     pub inline_mod: bool,
+    /// (inline_mod only) an earlier private inline module of the same file declares a type of the
+    /// same name without serde derives; it is not re-exported, so every mention means this node
+    pub shadowed: bool,
 }
 
 pub const DERIVE_FORMS: &[&str] = &["both", "ser", "de", "qualified", "split"];
 
 impl Node {
     pub fn new(name: String, is_enum: bool, file: usize, serde: bool) -> Node {
-        Node { name, is_enum, file, serde, derive: "both", unit: false, inline_mod: false }
+        Node { name, is_enum, file, serde, derive: "both", unit: false, inline_mod: false, shadowed: false }
     }
 }
 
@@ -180,6 +193,9 @@ impl TypeGraph {
             }
             if n.inline_mod {
                 let m = format!("inline_{}", n.name.to_lowercase());
+                if n.shadowed {
+                    file_text.push_str(&format!("mod runtime_{} {{\n    #[derive(Debug)]\n    pub struct {} {{\n        pub handle: usize,\n        pub never_serialised: bool,\n    }}\n}}\n\n", n.name.to_lowercase(), n.name));
+                }
                 file_text.push_str(&format!("pub mod {} {{\n    use super::*;\n\n    {}}}\n\npub use {}::*;\n\n", m, def.trim_end().replace('\n', "\n    ").trim_end_matches(' ').to_string() + "\n", m));
             } else {
                 file_text.push_str(&def);
@@ -280,5 +296,31 @@ pub fn random_graph(t: &mut Tape, allow_cycles: bool) -> TypeGraph {
         nodes.push(Node::new("UnusedDto".into(), t.bool(), t.pick(n_files), true));
     }
     let qualify = t.chance(1, 4);
+    // later addition, drawn last (an exhausted tape yields 0 = unchanged): one edge or root
+    // mentions its target only far below the surface of the type expression
+    match t.pick(6) {
+        4 if !edges.is_empty() => {
+            let k = t.pick(edges.len());
+            edges[k].wrap = (*t.choose(&["deep9", "deep12"])).to_string();
+        }
+        5 => {
+            let cands: Vec<usize> = roots.iter().enumerate().filter(|(_, r)| r.wrap != "direct" || !(r.site == "event" || r.site == "event_to" || r.site == "result_err")).map(|(i, _)| i).collect();
+            if !cands.is_empty() {
+                let k = cands[t.pick(cands.len())];
+                if !(roots[k].site == "event" || roots[k].site == "event_to" || roots[k].site == "result_err") {
+                    roots[k].wrap = (*t.choose(&["deep9", "deep12"])).to_string();
+                }
+            }
+        }
+        _ => {}
+    }
+    // later addition, drawn last: a non-serde namesake in an earlier private inline module
+    if t.pick(4) == 3 {
+        let cands: Vec<usize> = (0..n).filter(|i| nodes[*i].inline_mod && nodes[*i].serde).collect();
+        if !cands.is_empty() {
+            let k = cands[t.pick(cands.len())];
+            nodes[k].shadowed = true;
+        }
+    }
     TypeGraph { n_files, nodes, edges, roots, qualify }
 }
